@@ -225,7 +225,10 @@ def main():
              Spec("prefix-suffix", "[H]", ["C(N)C"], [("gauss", [150.0, 30.0])], ["CO"]),
              Spec("end-start", None, ["C(N)C", "C(=O)C"], [("uniform", [100, 200]), ("uniform", [100, 200])], ["[H]", "[H]"]),
              Spec("prefix-end", "OCC", ["C(N)C", "C(=O)C"], [("gauss", [100.0, 20.0]), ("gauss", [100.0, 20.0])], ["[H]"]),
-             Spec("end-start", None, ["C(F)C", "C(=O)C"], [("uniform", [0, 200]), ("poisson", [120.0])], ["Br", "[H]"])]
+             Spec("end-start", None, ["C(F)C", "C(=O)C"], [("uniform", [0, 200]), ("poisson", [120.0])], ["Br", "[H]"]),
+             # a locally symmetric repeat unit (two CF3 groups: 72 automorphic placements per unit): chains of 8 units and more have over
+             # a thousand non-uniquified substructure matches, the bulk of this ensemble has 10-14 units
+             Spec("prefix-suffix", "OCC", ["C(C(F)(F)F)(C(F)(F)F)C"], [("gauss", [1900.0, 120.0])], ["CO"])]
     for s in fixed:
         specs.append(s)
         seen.add(s.text())
